@@ -158,6 +158,8 @@ class Lifecycle(Monitor):
 
 
 def check(ctx):
+    ctx.exhaustive = True
+    ctx.bounds.append("loops unrolled once in path enumeration; the extracted HttpStream model is explored to a fix-point (all abstract states x all offered events)")
     ctx.rule("R03.1", "requestheaders precedes every other non-CONNECT hook, GetHttpConnection and send-to-server (model exploration)")
     ctx.rule("R03.2", "never both response and error, never two errors; need_error_hook predicate table")
     ctx.rule("R03.3", "request/responseheaders/response at most once, ordered")
